@@ -168,6 +168,13 @@ def ref_verify(k, scheme, sig, msg):
 # ---- certificates ----
 def cert_to_wire(der):
     try:
+        return _cert_to_wire(der)
+    except Exception:
+        return "N"          # lazily failing fields (corrupted DER): treated as unparseable (ValueError)
+
+
+def _cert_to_wire(der):
+    try:
         c = x509.load_der_x509_certificate(der)
     except Exception:
         return "N"
